@@ -170,6 +170,10 @@ def _in_clikit(exc):
 class AnsiSpec(Base):
     mode = "ansi"
 
+    def __init__(self, max_sections, kinds, indent=0):
+        Base.__init__(self, max_sections, kinds)
+        self.indent = indent  # indentation of the output at the time its sections are created
+
     def init(self):
         _pin_env()
         from clikit.api.io.output import Output
@@ -186,6 +190,8 @@ class AnsiSpec(Base):
         st.term = Term(WIDTH)
         st.out.write_line(SENTINEL)
         st.term.feed(self.drain(st))
+        if self.indent:
+            st.out.indent(self.indent)  # sections created from now on carry this indentation
         return st
 
     def key(self, st):
@@ -194,9 +200,11 @@ class AnsiSpec(Base):
 
     def expected_screen(self, st):
         rows = [SENTINEL]
+        pad = " " * self.indent
         for sec in st.model:
             for line in sec:
-                rows.extend(wrap_rows(visible(line), WIDTH))
+                vis = visible(line)
+                rows.extend(wrap_rows(pad + vis if vis else vis, WIDTH))
         while rows and rows[-1] == "":
             rows.pop()
         return rows
@@ -206,7 +214,7 @@ class AnsiSpec(Base):
         return any(len(visible(l)) > WIDTH for sec in st.model for l in sec)
 
     def apply(self, st, op):
-        wraps = self._wraps(st)
+        wraps = self._wraps(st) or bool(self.indent)
         v = self.do(st, op)
         if v:
             return [v]
@@ -307,7 +315,7 @@ def _spec_for(case):
     kinds = case.get("kinds") or CORE_KINDS
     if case.get("mode") == "plain":
         return PlainSpec(case.get("max_sections", 3), kinds, case.get("formatter", "plain"))
-    return AnsiSpec(case.get("max_sections", 3), kinds)
+    return AnsiSpec(case.get("max_sections", 3), kinds, case.get("indent", 0))
 
 
 def replay(case):
@@ -324,11 +332,14 @@ def main():
         runs.append(("ansi-2sections", AnsiSpec(2, CORE_KINDS), 8))
         runs.append(("ansi-3sections", AnsiSpec(3, CORE_KINDS), 7))
         runs.append(("ansi-2sections-extra", AnsiSpec(2, CORE_KINDS + [extra]), 7))
+        runs.append(("ansi-2sections-indent3", AnsiSpec(2, CORE_KINDS, indent=3), 7))
         xdepth = 4
     else:
         # histories with <= 2 sections are a subset of this part (creating the third section is optional)
         runs.append(("ansi-3sections", AnsiSpec(3, CORE_KINDS), 6))
         runs.append(("ansi-2sections-extra", AnsiSpec(2, CORE_KINDS + [extra]), 5))
+        # the output is indented when its sections are created: a line may wrap only because of the indentation
+        runs.append(("ansi-2sections-indent3", AnsiSpec(2, CORE_KINDS, indent=3), 5))
         xdepth = 3
     runs.append(("plain-PlainFormatter", PlainSpec(3, CORE_KINDS + [extra], "plain"), 6))
     runs.append(("plain-NullFormatter", PlainSpec(3, CORE_KINDS, "null"), 6))
@@ -337,10 +348,10 @@ def main():
     all_closed = True
     for name, spec, depth in runs:
         r = _c15_bfs.explore(spec, depth, keep_keys=True)
-        all_keys |= set((spec.mode, k) for k in r.keys) if spec.mode == "plain" else r.keys
+        all_keys |= set((spec.mode, k) for k in r.keys) if spec.mode == "plain" else set((getattr(spec, "indent", 0), k) for k in r.keys)
         r.keys = set()
         for v in r.violations:
-            v["case"].update(mode=spec.mode, kinds=spec.kinds, max_sections=spec.max_sections)
+            v["case"].update(mode=spec.mode, kinds=spec.kinds, max_sections=spec.max_sections, indent=getattr(spec, "indent", 0))
             if spec.mode == "plain":
                 v["case"]["formatter"] = spec.formatter
         rep.merge(r.violations)
